@@ -18,6 +18,7 @@ Section PlanInd.
   Hypothesis HObj : forall fields, Forall (fun kf => Pf (snd kf)) fields -> Pv (VObj fields).
   Hypothesis HFNone : forall tag nn, Pf (FP tag nn None).
   Hypothesis HFSome : forall tag nn v, Pv v -> Pf (FP tag nn (Some v)).
+  Hypothesis HFType : Pf FTypename.
 
   Fixpoint vplan_ind2 (v : vplan) : Pv v :=
     match v with
@@ -41,6 +42,7 @@ Section PlanInd.
     match f with
     | FP tag nn None => HFNone tag nn
     | FP tag nn (Some v) => HFSome tag nn v (vplan_ind2 v)
+    | FTypename => HFType
     end.
 
   Lemma plan_ind2 : (forall v, Pv v) /\ (forall f, Pf f).
@@ -63,6 +65,7 @@ Definition cls_f (fp : fplan) : cls :=
   | FP _ true _ => CNonNil
   | FP _ false None => CAny
   | FP _ false (Some v) => cls_v v
+  | FTypename => CNonNil
   end.
 
 Lemma solid_cls v : solid v = true -> cls_v v = CNonNil.
@@ -289,7 +292,7 @@ Section Build.
     destruct (exec_field fp p s) as [f s1] eqn:E1.
     destruct (B p s f s1 C X E1) as (S1 & G1 & A1).
     destruct (catch_if_nullable_good (fp_nn fp) _ f s1 f1 s2 G1) as ((S2 & P2) & G2 & A2); auto.
-    { destruct fp as [t [|] r]; simpl; intros H; try discriminate. exact I. }
+    { destruct fp as [t [|] r|]; simpl; intros H; try discriminate; exact I. }
     split; [eapply step_trans; eauto|]. split; auto.
     intros c i L Lv. apply A2. apply (A1 c i L). unfold live in *. rewrite <- P2. exact Lv.
   Qed.
@@ -437,6 +440,10 @@ Section Build.
           constructor. apply A_then_none. apply A_new.
       + destruct (K _ _ _ E) as (A & B & D). split; [eapply step_trans; eauto|]. split; [exact B|].
         intros c i L Lv. apply (D c i); auto.
+    - (* FTypename *)
+      intros p s f s' _ _ E. simpl in E. injection E as <- <-.
+      split; [apply step_refl|]. split; [apply GF_ready; intros _; simpl; exists GStr; split; [reflexivity|discriminate]|].
+      intros _ i L Lv. exfalso. eapply no_new_live; eauto.
   Qed.
 
   Lemma exec_field_good fp p s f1 s2 :
